@@ -61,10 +61,15 @@ def check(ctx):
            "the only ciborium parser call in the crate is from_reader (default 256-level recursion limit) in read_to_value",
            detail={"sites": ["%s (%s)" % (f.key, f.where(bb)) for f, bb in sites]})
     callers = sorted({f.key for f in prog.real_fns() for bb, t in f.calls() if callee_path(t) == READ})
-    ctx.ob("R-1", "callers-of-read_to_value",
-           set(callers) <= {"common::CborSerializable::from_slice", "common::TaggedCborSerializable::from_tagged_slice",
-                            "header::ProtectedHeader::from_cbor_bstr_depth"},
-           "read_to_value is called only by the trait defaults and the depth-budgeted protected-header path", detail={"callers": callers})
+    # other provided methods of the two serialisation traits (a new byte-level entry point such as `from_maybe_tagged_slice`)
+    # inherit the discipline of read_to_value; a re-entry from INSIDE a decoder is what R-3 analyses (every cycle that
+    # contains a caller of read_to_value needs a budget), so only callers that are neither are reported here
+    extra = [k for k in callers if k not in ("common::CborSerializable::from_slice", "common::TaggedCborSerializable::from_tagged_slice",
+                                             "header::ProtectedHeader::from_cbor_bstr_depth")
+             and prog.fn(k).trait_default_of not in ("common::CborSerializable", "common::TaggedCborSerializable")]
+    ctx.ob("R-1", "callers-of-read_to_value", not extra,
+           "read_to_value is called only by provided methods of the serialisation traits and the depth-budgeted protected-header path",
+           detail={"callers": callers, "unexpected": extra})
 
     # ---- R-2 panic ledger ----------------------------------------------------------
     n_sites = 0
@@ -572,16 +577,44 @@ def _invariant(ctx, prog, cg, f, bb, t, which):
     return False, "unknown invariant"
 
 
+def _upper_bound(t, depth=0):
+    """an upper bound of a usize-valued term built from small constants, bool -> usize conversions, Vec::len() (a Vec of
+    non-zero-sized elements holds at most isize::MAX bytes) and sums of such, or None"""
+    if depth > 12:
+        return None
+    if t[0] == "const" and isinstance(t[1], bool):
+        return 1
+    if t[0] == "const" and isinstance(t[1], int) and 0 <= t[1] <= 2 ** 31:
+        return t[1]
+    if is_call(t, "alloc::vec::Vec::<T, A>::len") or is_call(t, "alloc::collections::btree::set::BTreeSet::<T, A>::len"):
+        return 2 ** 63 - 1
+    if is_call(t) and t[1] in ("core::convert::From::from", "core::convert::Into::into") and len(t[2]) == 1:
+        a = t[2][0]
+        # usize::from(bool): the argument is a comparison / negation / emptiness test
+        if (a[0] in ("binop", "unop") and (a[0] == "unop" or a[1] in ("Eq", "Ne", "Lt", "Le", "Gt", "Ge"))) or \
+                (is_call(a) and a[1].split("::")[-1] in ("is_empty", "is_some", "is_none", "contains", "contains_key")) or \
+                (a[0] == "const" and isinstance(a[1], bool)):
+            return 1
+        return None
+    if t[0] == "cast" and t[1] == "IntToInt" and len(t) > 2:
+        return _upper_bound(t[2], depth + 1)
+    if t[0] == "field" and t[2] == "0" and t[1][0] == "binop" and t[1][1] == "AddWithOverflow":
+        t = ("binop", "Add", t[1][2], t[1][3])
+    if t[0] == "binop" and t[1] in ("Add", "AddWithOverflow", "AddUnchecked"):
+        a, b = _upper_bound(t[2], depth + 1), _upper_bound(t[3], depth + 1)
+        return None if a is None or b is None else a + b
+    if t[0] == "phi":
+        bs = [_upper_bound(x, depth + 1) for x in t[1]]
+        return None if any(b is None for b in bs) else max(bs)
+    return None
+
+
 def _small_plus_len(c):
-    """overflow flag of `k + v.len()` (either order) with 0 <= k <= 2^31 and v a Vec"""
+    """overflow flag of a sum whose operands are bounded (small constants, bool -> usize, one Vec::len()): it cannot wrap a usize"""
     if not (c[0] == "field" and c[2] == "1" and c[1][0] == "binop" and c[1][1] == "AddWithOverflow"):
         return False
-    a, b = c[1][2], c[1][3]
-    for k, l in ((a, b), (b, a)):
-        if k[0] == "const" and isinstance(k[1], int) and not isinstance(k[1], bool) and 0 <= k[1] <= 2 ** 31 \
-                and is_call(l, "alloc::vec::Vec::<T, A>::len"):
-            return True
-    return False
+    a, b = _upper_bound(c[1][2]), _upper_bound(c[1][3])
+    return a is not None and b is not None and a + b <= 2 ** 64 - 1
 
 
 def _value_param(f):
